@@ -1,6 +1,9 @@
 import UnifexModel.Driver.Entry
 import UnifexModel.Proto.EventLoop
 import UnifexModel.Proto.AtomicQueue
+import UnifexModel.Proto.ThreadPool
+import UnifexModel.Proto.NewThread
+import UnifexModel.Proto.Trampoline
 
 namespace Unifex.Driver.Entries
 open Unifex.Proto Unifex.Core
@@ -25,5 +28,20 @@ def eventloop : ModelEntries :=
 def atomicqueue : ModelEntries :=
   ("atomicqueue", AtomicQueue.configs.map (fun (n, c) =>
       (n, mkEntryS (AtomicQueue.sys c) AtomicQueue.obsOf (AtomicQueue.final c) (AtomicQueue.safe c))))
+
+def threadpool : ModelEntries :=
+  ("threadpool", ThreadPool.configs.map (fun (n, c) =>
+      (n, mkEntryS (ThreadPool.sys c) ThreadPool.obsOf (ThreadPool.final c) (ThreadPool.safe c))))
+
+def newthread : ModelEntries :=
+  ("newthread", NewThread.configs.map (fun (n, c) =>
+      (n, mkEntryS (NewThread.sys c) NewThread.obsOf (NewThread.final c) (NewThread.safe c))))
+
+/-- sequential model: `ask trampoline run | <maxDepth> | <tree>` answers with the event log -/
+def trampoline : ModelEntries :=
+  ("trampoline", [("run",
+      { admitH := fun _ => .notFinal []
+        states := fun _ => 0
+        query := Trampoline.answer })])
 
 end Unifex.Driver.Entries
